@@ -194,13 +194,8 @@ Definition c5_wf_step (prev_now : Z) (s : c5_ostep) : bool :=
 
 (* ---- the recorded findings' signatures (see known_findings.d/C05.json) --------------------------- *)
 
-(* pending-flexible: a flexible downtime is added to a never-checked object while its window is open *)
-Definition c5_sig_pending (s : c5_ostep) : bool :=
-  match c5_op s with
-  | OpDtAdd _ fixed start end_ _ _ _ _ =>
-      negb fixed && negb (c5_checked s) && (start <=? c5_now s) && (c5_now s <=? end_)
-  | _ => false
-  end.
+(* (pending-flexible - a flexible downtime added to a never-checked object triggered at once - was fixed in
+   /repo 7c445bb; Downtime::Start now tests Checkable::GetProblem(), and so does do_dt_add) *)
 
 (* lost-start: a fixed downtime that is not yet triggered is inside its window when something other than
    its own start (Downtime::Start / the start timer) triggers it: a non-OK result, or the chain of
@@ -228,7 +223,7 @@ Definition c5_sig_endinstant (s : c5_ostep) : bool :=
   end.
 
 Definition c5_sig_any (k : kind) (s : c5_ostep) : bool :=
-  c5_sig_pending s || c5_sig_loststart k s || c5_sig_endinstant s.
+  c5_sig_loststart k s || c5_sig_endinstant s.
 
 (* ---- the observation record of one step of the MODEL ---- *)
 Definition c5_mk (c : fcfg) (now : Z) (f : full) (o : op) : c5_ostep :=
@@ -247,11 +242,10 @@ Fixpoint c5_model_trace (c : fcfg) (f : full) (h : list (Z * op)) : list c5_oste
   | (now, o) :: rest => c5_mk c now f o :: c5_model_trace c (fst (full_step c now f o)) rest
   end.
 
-(* which recorded finding explains a failing check (0 = none): 1 pending-flexible, 2 lost-start,
-   3 start-at-end-instant *)
+(* which recorded finding explains a failing check (0 = none): 2 lost-start, 3 start-at-end-instant
+   (1 was pending-flexible, fixed) *)
 Definition c5_explained (k : kind) (s : c5_ostep) (n : Z) : Z :=
-  if (n =? 8) && c5_sig_pending s then 1
-  else if (n =? 9) && c5_sig_loststart k s then 2
+  if (n =? 9) && c5_sig_loststart k s then 2
   else if (n =? 9) && c5_sig_endinstant s then 3
   else 0.
 
